@@ -4,10 +4,13 @@ Import ListNotations.
 
 Lemma astep_sound : forall p f s s', described f s -> exec p s s' -> described (astep p f) s'.
 Proof.
-  intros p f s s' [Hs [Ht Hu]] He. unfold described.
-  destruct p; cbn [astep exec may_stranded may_tomb may_unsorted] in *;
-    repeat split; intro H; try discriminate;
-    repeat match goal with He : _ /\ _ |- _ => destruct He end; subst; try congruence; auto;
+  intros p f s s' [Hs [Ht [Hu Hd]]] He. unfold described.
+  destruct p; cbn [astep exec may_stranded may_tomb may_unsorted may_dup] in *;
+    repeat match goal with X : _ /\ _ |- _ => destruct X end; subst;
+    repeat split; intro Hflag; try discriminate;
+    try (apply orb_false_iff in Hflag; destruct Hflag);
+    try congruence; auto;
+    try (match goal with E : n_dup _ = 0 -> _ |- _ => rewrite E by auto; auto end);
     try (match goal with E : _ = _ |- _ => rewrite E; solve [auto] end).
 Qed.
 
@@ -23,16 +26,17 @@ Lemma entry_described : forall fresh s, (fresh = false -> clean s) -> described 
 Proof.
   intros [|] s H; unfold described; cbn.
   - repeat split; intro; discriminate.
-  - destruct (H eq_refl) as [A [B C]]. repeat split; auto.
+  - destruct (H eq_refl) as [A [B [C D]]]. repeat split; auto.
 Qed.
 
 Lemma pipeline_ok_sound_lemma : forall fresh ps s s',
   (fresh = false -> clean s) -> exec_all ps s s' -> pipeline_ok fresh ps = true -> clean s'.
 Proof.
   intros fresh ps s s' Hentry He Hok. unfold pipeline_ok, no_flag in Hok.
-  pose proof (arun_sound ps (entry_flags fresh) s s' (entry_described fresh s Hentry) He) as [Hs [Ht Hu]].
-  apply andb_true_iff in Hok. destruct Hok as [Hok H3]. apply andb_true_iff in Hok. destruct Hok as [H1 H2].
-  apply negb_true_iff in H1, H2, H3. unfold clean. auto.
+  pose proof (arun_sound ps (entry_flags fresh) s s' (entry_described fresh s Hentry) He) as [Hs [Ht [Hu Hd]]].
+  apply andb_true_iff in Hok. destruct Hok as [Hok H4]. apply andb_true_iff in Hok. destruct Hok as [Hok H3].
+  apply andb_true_iff in Hok. destruct Hok as [H1 H2].
+  apply negb_true_iff in H1, H2, H3, H4. unfold clean. auto.
 Qed.
 
 (* the abstraction is not vacuous: a pipeline that is rejected has a run (allowed
@@ -42,11 +46,20 @@ Lemma refine_shape_not_ok : pipeline_ok false [Subdivide; SortGeometry] = false.
 Proof. reflexivity. Qed.
 
 Lemma refine_shape_bad_run :
-  exists s', exec_all [Subdivide; SortGeometry] (mkC 0 0 true) s' /\ n_stranded s' = 1.
+  exists s', exec_all [Subdivide; SortGeometry] (mkC 0 0 true 0) s' /\ n_stranded s' = 1.
 Proof.
-  exists (mkC 1 0 true). split; [|reflexivity].
-  exists (mkC 1 3 false). split; [reflexivity|]. exists (mkC 1 0 true). cbn. auto.
+  exists (mkC 1 0 true 0). split; [|reflexivity].
+  exists (mkC 1 3 false 0). split; [cbn; auto|]. exists (mkC 1 0 true 0). cbn. auto.
 Qed.
+
+(* the row that the Impl-level oracle corrected: CleanupTopology on a state with duplicates may strand, so
+   a pipeline that cleans up duplicates must still call RemoveUnreferencedVerts *)
+Lemma cleanup_without_remove_not_ok : pipeline_ok true [CreateHalfedges; CleanupTopology; SortGeometry] = false.
+Proof. reflexivity. Qed.
+Lemma import_shape_ok : pipeline_ok true [CreateHalfedges; CleanupTopology; RemoveUnreferencedVerts; SortGeometry] = true.
+Proof. reflexivity. Qed.
+Lemma simplify_shape_ok : pipeline_ok false [SimplifyTopology; SortGeometry] = true.
+Proof. reflexivity. Qed.
 
 Lemma refine_fixed_shape_ok : pipeline_ok false [Subdivide; RemoveUnreferencedVerts; SortGeometry] = true.
 Proof. reflexivity. Qed.
